@@ -6,6 +6,9 @@ import (
 	"context"
 	"fmt"
 	"os"
+	"os/exec"
+	"path/filepath"
+	"runtime"
 	"runtime/debug"
 	"sort"
 	"strings"
@@ -359,9 +362,110 @@ func runC17() int {
 	if code != 0 {
 		return code
 	}
-	return rep.Finish(tot.coverage(map[string]any{"scenarios": len(scs)}))
+	racePass := c17RacePass(rep)
+	return rep.Finish(tot.coverage(map[string]any{"scenarios": len(scs), "supplementary_free_running_race_pass": racePass}))
+}
+
+// c17RacePass runs bin/vcheck-race (un-instrumented -race build of the same scenario bodies, real goroutines) and
+// turns race reports whose stacks lie in the tree / types packages, and verdict differences, into violations.
+// It is sampling and supplementary: the exhaustive verdict above does not depend on it.
+func c17RacePass(rep *Reporter) map[string]any {
+	bin := filepath.Join(VerifDir(), "bin", "vcheck-race")
+	if _, err := os.Stat(bin); err != nil {
+		return map[string]any{"ran": false, "reason": "bin/vcheck-race not built"}
+	}
+	cmd := exec.Command(bin, "C17race")
+	cmd.Env = append(os.Environ(), "GORACE=halt_on_error=0 exitcode=0")
+	var stdout, stderr strings.Builder
+	cmd.Stdout, cmd.Stderr = &stdout, &stderr
+	err := cmd.Run()
+	reports := strings.Split(stderr.String(), "WARNING: DATA RACE")[1:]
+	inTree := 0
+	for _, r := range reports {
+		var frames []string
+		for _, l := range strings.Split(r, "\n") {
+			l = strings.TrimSpace(l)
+			if strings.HasPrefix(l, "github.com/sdcio/data-server/pkg/") && strings.HasSuffix(l, "()") {
+				frames = append(frames, strings.TrimPrefix(l, "github.com/sdcio/data-server/pkg/"))
+			}
+		}
+		tree := false
+		for _, f := range frames {
+			if strings.HasPrefix(f, "tree.") || strings.HasPrefix(f, "types.") || strings.HasPrefix(f, "datastore/clients/schema.") {
+				tree = true
+			}
+		}
+		if !tree || len(frames) == 0 {
+			continue
+		}
+		inTree++
+		top := frames[0]
+		rep.Add(&Violation{Clause: "data-race", Sig: "data-race:free-running:" + top, Detail: "the Go race detector reports a data race during concurrent validation:" + firstLines(r, 30), Engine: "E4-sched (supplementary -race pass)",
+			Case: map[string]any{"how": "tools/race-pass.sh", "frames": frames}})
+	}
+	for _, blk := range strings.Split(stdout.String(), "VERDICT-DIFFERS ")[1:] {
+		name := firstLine(blk)
+		rep.Add(&Violation{Clause: "verdict-differs", Sig: "verdict-differs:free-running:" + name, Detail: "free-running concurrent validation returned another verdict than the sequential run: " + firstLines(blk, 20), Engine: "E4-sched (supplementary -race pass)"})
+	}
+	res := map[string]any{"ran": true, "race_reports_total": len(reports), "race_reports_in_tree_packages": inTree, "summary": lastLine(stdout.String())}
+	if err != nil {
+		res["error"] = err.Error()
+	}
+	return res
+}
+
+func lastLine(s string) string {
+	ls := strings.Split(strings.TrimSpace(s), "\n")
+	return ls[len(ls)-1]
 }
 
 func init() {
 	Checks["C17"] = func([]string) int { return runC17() }
+}
+
+// C17race: supplementary free-running pass (not part of the verdict of the exploration): the same scenario
+// bodies run with real goroutines in a binary built with -race and without instrumentation (the runtime is
+// inactive, every primitive is the real one). The Go race detector sees every memory access, including those
+// the instrumenter cannot reroute (writes through pointers, slice elements, struct copies).
+func runC17Race(args []string) int {
+	u, err := LoadUniverse()
+	if err != nil {
+		return fail(err)
+	}
+	reps := 40
+	if Tier() == "thorough" {
+		reps = 400
+	}
+	defer c17Cache.Close()
+	runs, differ := 0, 0
+	for _, sc := range c17Scenarios() {
+		wRef, oRef, err := c17Run(u, sc, false)
+		if err != nil {
+			return fail(err)
+		}
+		want := c17Verdict(wRef, oRef)
+		for _, procs := range []int{2, 4, 8} {
+			runtime.GOMAXPROCS(procs)
+			for i := 0; i < reps; i++ {
+				w, out, err := c17Run(u, sc, true)
+				if err != nil {
+					return fail(err)
+				}
+				runs++
+				if got := c17Verdict(w, out); got != want {
+					differ++
+					fmt.Printf("VERDICT-DIFFERS scenario=%q GOMAXPROCS=%d\n%s\n--- sequential:\n%s\n", sc.Name, procs, got, want)
+				}
+			}
+		}
+	}
+	fmt.Printf("C17race: %d concurrent runs, %d with a verdict different from the sequential run\n", runs, differ)
+	if differ > 0 {
+		return 1
+	}
+	return 0
+}
+
+func init() {
+	Checks["C17race"] = runC17Race
 }
